@@ -11,6 +11,7 @@ CP2KEngine (:py:class:`.CP2KEngine`)
 
 from __future__ import annotations
 
+import contextlib
 import logging
 import os
 import shlex
@@ -48,6 +49,14 @@ if TYPE_CHECKING:  # pragma: no cover
     from infretis.classes.formatter import FileIO
     from infretis.classes.path import Path as InfPath
     from infretis.classes.system import System
+
+
+def _stop_process_group(exe) -> None:
+    """Terminate the process group of exe if it is still running."""
+    if exe.poll() is None:
+        os.killpg(os.getpgid(exe.pid), signal.SIGTERM)
+        exe.wait(timeout=360)
+
 
 logger = logging.getLogger(__name__)  # pylint: disable=invalid-name
 logger.addHandler(logging.NullHandler())
@@ -877,7 +886,9 @@ class CP2KEngine(EngineBase):
         return_code = None
         cp2k_was_terminated = False
 
-        with open(out_name, "wb") as fout, open(err_name, "wb") as ferr:
+        with open(out_name, "wb") as fout, open(
+            err_name, "wb"
+        ) as ferr, contextlib.ExitStack() as cleanup:
             exe = subprocess.Popen(
                 cmd,
                 stdin=subprocess.PIPE,
@@ -887,6 +898,8 @@ class CP2KEngine(EngineBase):
                 cwd=cwd,
                 preexec_fn=os.setsid,
             )
+            # never leave the program running, also if we raise below
+            cleanup.callback(_stop_process_group, exe)
             # wait for trajectories to appear
             while not os.path.exists(out_files["pos"]) or not os.path.exists(
                 out_files["vel"]
